@@ -248,6 +248,8 @@ def native_poly_replay(p, mode, axes=(0, 1, 2)):
 
 
 def run(R):
+    from engine.canary import run_canaries
+    run_canaries(R, ('symx',))
     R.assume('A1', 'A2', 'A6')
     R.trust('Taylor\'s theorem: a linear combination exact on polynomials of degree <= p is a p-th order approximation of the derivative of smooth fields (A3)')
     FDm, mod, cls = get_modules()
